@@ -8,6 +8,11 @@ static GLOBAL: std::alloc::System = std::alloc::System;
 
 mod c20_log;
 
+/// store used by C19 to compare the same compressed object across backends byte for byte
+pub mod c19_store {
+    pub static STORE: std::sync::Mutex<Option<std::collections::HashMap<String, (String, u64)>>> = std::sync::Mutex::new(None);
+}
+
 macro_rules! backend_mod {
     ($m:ident, $be:ty, $name:literal, $fft:literal) => {
         #[allow(dead_code, unused_imports, unused_variables, unused_mut)]
@@ -54,6 +59,47 @@ macro_rules! backend_mod {
             pub mod c16 {
                 use super::*;
                 include!("props/c16.rs");
+            }
+            pub mod c02 {
+                use super::*;
+                include!("c0203_common.rs");
+                include!("props/c02.rs");
+            }
+            #[cfg(feature = "hooks")]
+            pub mod c03 {
+                use super::*;
+                include!("c0203_common.rs");
+                include!("props/c03.rs");
+            }
+            #[cfg(feature = "hooks")]
+            pub mod c01 {
+                use super::*;
+                include!("c010619_common.rs");
+                include!("props/c01.rs");
+            }
+            #[cfg(feature = "hooks")]
+            pub mod c06 {
+                use super::*;
+                include!("c010619_common.rs");
+                include!("props/c06.rs");
+            }
+            #[cfg(feature = "hooks")]
+            pub mod c19 {
+                use super::*;
+                include!("c010619_common.rs");
+                include!("props/c19.rs");
+            }
+            #[cfg(feature = "hooks")]
+            pub mod c04 {
+                use super::*;
+                include!("c0405_common.rs");
+                include!("props/c04.rs");
+            }
+            #[cfg(feature = "hooks")]
+            pub mod c05 {
+                use super::*;
+                include!("c0405_common.rs");
+                include!("props/c05.rs");
             }
             pub mod c17 {
                 use super::*;
@@ -233,6 +279,19 @@ fn main() {
         "c10" => c10::run(&cfg, &mut rep),
         "c11" => on_backends!(&cfg, &mut rep, c11),
         "c12" => on_backends!(&cfg, &mut rep, c12),
+        "c02" => on_backends!(&cfg, &mut rep, c02),
+        #[cfg(feature = "hooks")]
+        "c03" => on_backends!(&cfg, &mut rep, c03),
+        #[cfg(feature = "hooks")]
+        "c01" => on_backends!(&cfg, &mut rep, c01),
+        #[cfg(feature = "hooks")]
+        "c04" => on_backends!(&cfg, &mut rep, c04),
+        #[cfg(feature = "hooks")]
+        "c05" => on_backends!(&cfg, &mut rep, c05),
+        #[cfg(feature = "hooks")]
+        "c06" => on_backends!(&cfg, &mut rep, c06),
+        #[cfg(feature = "hooks")]
+        "c19" => on_backends!(&cfg, &mut rep, c19),
         "c16" => on_backends!(&cfg, &mut rep, c16),
         "c17" => on_backends!(&cfg, &mut rep, c17),
         #[cfg(feature = "hooks")]
